@@ -80,7 +80,40 @@ def step_strategy(runner: Runner):
     return step()
 
 
+class ManyBlocksRunner(Runner):
+    """Hundreds of blocks per group: only the bitwise untouched-state invariant and the step-counter model are checked (no reference model),
+    so that selector / mask bookkeeping is exercised at sizes where per-block reference checking would be too slow."""
+
+    def __init__(self, config: dict):
+        super().__init__(config, check_reference=False)
+
+    def nontrivial_rule(self) -> bool:
+        return self.stats["mask_changes"] >= 1 and self.stats["blocks"] > 256
+
+
+def config_strategy_many():
+    from hypothesis import strategies as st
+
+    @st.composite
+    def config(draw: Any) -> dict:
+        cfg = draw(gen.st_config(dtypes=(("f32", "f32"),), solvers=("eigen",), kinds=("shampoo", "shampoo", "soap"), allow_ignored=False, allow_override=False, gscale=1.0))
+        cfg["mpd"] = draw(st.sampled_from([1, 2, 2, 3]))
+        cfg["merge"] = False
+        cfg["epsilon"] = 1e-3
+        big = draw(st.sampled_from([[130, 2], [260, 2], [300], [17, 16], [9, 8, 4], [66, 4], [520]]))
+        small = draw(st.sampled_from([[2, 2], [2], [3, 2]]))
+        n_small = draw(st.integers(2, 4))
+        shapes = [big] + [list(small) for _ in range(n_small)]
+        if draw(st.booleans()):
+            shapes.insert(draw(st.integers(0, len(shapes))), draw(st.sampled_from([[70, 2], [40, 3], [65]])))
+        return {"groups": [{"cfg": cfg, "shapes": shapes}], "pseed": draw(st.integers(0, 10**5))}
+
+    return config()
+
+
 STREAMS = {
     "history": Stream("history", machine=(config_strategy, step_strategy, Runner), quick=1200, thorough=40000, shards_quick=16, shards_thorough=16,
                       max_steps=15, max_steps_thorough=30),
+    "many_blocks": Stream("many_blocks", machine=(config_strategy_many, step_strategy, ManyBlocksRunner), quick=160, thorough=4000, shards_quick=16, shards_thorough=16,
+                          max_steps=8, max_steps_thorough=12),
 }
